@@ -44,6 +44,8 @@ pub mod sign;
 mod target_name;
 mod transport;
 mod urlpath;
+#[cfg(feature = "verif-hooks")]
+pub mod verif_hooks;
 
 use crate::datastore::Datastore;
 use crate::error::Result;
